@@ -179,18 +179,20 @@ DEPENDS = {
             (r"C04/(%s|Auer)\.modeling$" % _PAV[1:-1], r"."),
             (r"C02/Auer\.discarding\[", r"^(safe|mono)/"), (r"C03/Auer\.pareto_updating\[", r"^(safe|mono)/"),
             (r"C03/Auer\.run_one_step\[m=2,non-empirical", r"."),
-            (r"C06/%s\.run_one_step$" % _PAV, r"^phases_run_once|^active_step")],
+            (r"C06/%s\.run_one_step$" % _PAV, r"^phases_run_once|^active_step"),
+            (r"C06/(%s|Auer)\.__init__" % _PAV[1:-1], r".")],
     "C05": [(r"C02/(VOGP|EpsilonPAL)\.(discarding|compute_pessimistic_set)$", r"^(safe|mono)/"),
             (r"C03/(VOGP|EpsilonPAL)\.epsiloncovering$", r"^(safe|mono)/"),
             (r"C09/(Rect|Ell)\.is_dominated\[", _DOM_SOUND), (r"C09/lemma\.box_extreme", r"."),
             (r"C10/(Rect|Ell)\.is_covered\[", _COV_COMPLETE),
             (r"C17/VOGP\.compute_u_star", r"."),
             (r"C04/(VOGP|EpsilonPAL)\.modeling$", r"."),
-            (r"C06/(VOGP|EpsilonPAL)\.run_one_step$", r"^phases_run_once|^active_step")],
+            (r"C06/(VOGP|EpsilonPAL)\.run_one_step$", r"^phases_run_once|^active_step"),
+            (r"C06/(VOGP|EpsilonPAL)\.__init__", r".")],
     # "exactly when the displayed regions certify it": the geometric meaning of the certificate predicates
     # ... and "in that same round" / "in every round": every phase runs once per active step, in order
-    "C02": [(r"C09/", r"."), (r"C11/", r"."), (r"C06/.*\.run_one_step$", r"^phases_run_once|^active_step")],
-    "C03": [(r"C10/", r"."), (r"C06/.*\.run_one_step$", r"^phases_run_once|^active_step")],
+    "C02": [(r"C09/", r"."), (r"C11/", r"."), (r"C06/.*\.run_one_step$", r"^phases_run_once|^active_step"), (r"C06/.*\.__init__", r".")],
+    "C03": [(r"C10/", r"."), (r"C06/.*\.run_one_step$", r"^phases_run_once|^active_step"), (r"C06/.*\.__init__", r".")],
     # the region built from the scaling: scale x predictive std / scale-radius ellipsoid
     "C04": [(r"C14/(Rect|Ell)\.update\[", r".")],
     # step composition uses the phases' monotonicity and exception-freedom
@@ -204,7 +206,7 @@ DEPENDS = {
     "C11": [(r"C02/.*\.compute_pessimistic_set$", r".")],
     "C13": [(r"C12/(dominates|is_inside)", r".")],
     "C14": [(r"C15/.*\.predict\[", r".")],
-    "C18": [(r"C03/VOGP_AD\.epsiloncovering$", r"."), (r"C06/VOGP_AD\.evaluate_refine$", r".")],
+    "C18": [(r"C03/VOGP_AD\.epsiloncovering$", r"."), (r"C06/VOGP_AD\.evaluate_refine$", r"."), (r"C06/VOGP_AD\.__init__", r".")],
     "C19": [(r"C17/get_alpha", r".")],
 }
 for _p, _d in DEPENDS.items():
